@@ -40,6 +40,9 @@ ASSUMPTIONS = [
     "decimal value of its shortest repr by up to half an ulp (>= 1): the text-level contract FixOk (hypothesis of C01_floatToStr_close "
     "/ C01_norm_reals_close) does not hold for such reprs and those theorems do not speak about them; the float-level oracle does "
     "(float(written text) == x exactly); bucket fixok-not-applicable:huge",
+    "reading with lanelet_assignment=True raises for a file in which an obstacle state has an uncertain position / orientation "
+    "(known findings C01/read(lanelet_assignment=True)/raises/<site>/uncertain-state, the C03 finding reached through C01's read "
+    "route); the same scenarios are judged on the plain open() route",
     "first_occurrence of a traffic sign, the centre line of a lanelet, TrafficLight.color and the state class name are not part of "
     "the XML format (derived on reading) and are not compared",
 ]
@@ -335,12 +338,46 @@ def tags_of(ctx, spec, d):
         t("intersection")
 
 
+def _has_uncertain_state(spec):
+    """does an obstacle of the scenario as written (after the planned history) have a state with an uncertain position (a shape)
+    or orientation (an interval)?"""
+    try:
+        sc, pps = G.build(spec)
+        G.apply_history(sc, pps, (spec.get("plan") or {}).get("history") or [], spec["scenario_id"]["country"])
+        for o in sc.static_obstacles + sc.dynamic_obstacles:
+            states = [o.initial_state]
+            p = getattr(o, "prediction", None)
+            if p is not None and hasattr(p, "trajectory"):
+                states += list(p.trajectory.state_list)
+            if any(st.is_uncertain_position or st.is_uncertain_orientation for st in states):
+                return True
+    except Exception:  # noqa
+        pass
+    return False
+
+
 def judge(ctx, spec, d, path, model=True):
     case = {"spec": spec, "precision": d}
     ctx.case({"precision": d, "spec": spec})
-    r = call(write_read, spec, path, d)
-    if r[0] == "err":
-        ctx.fail(f"C01/write-read/raises-{r[1]}", f"write->read raised {r[2]} at precision {d}", case)
+    try:
+        r = ("ok", write_read(spec, path, d))
+    except Exception as e:  # noqa: classified below
+        import traceback
+        from common import err_class
+        frames = [f.name for f in traceback.extract_tb(e.__traceback__)]
+        msg = f"{type(e).__name__}: {str(e)[:200]}"
+        site = next((f for f in ("find_obstacle_shape_lanelets", "find_obstacle_center_lanelets") if f in frames), None)
+        if site is None and "create_from_xml_node" in frames and "rotate_translate_local" in frames:
+            site = "initial_shape_lanelets"      # the lanelet assignment of the INITIAL state (static / dynamic obstacle factory)
+        assign = ((spec.get("plan") or {}).get("reader") or {}).get("method") == "open-assign"
+        if assign and site is not None and "open" in frames and _has_uncertain_state(spec):
+            # the reader's lanelet assignment cannot place a state with an uncertain position / orientation: keyed by call site,
+            # so that any other exception on the write -> read path stays a violation
+            ctx.tag("read-assign-raises:" + site)
+            ctx.fail(f"C01/read(lanelet_assignment=True)/raises/{site}/uncertain-state",
+                     f"CommonRoadFileReader.open(lanelet_assignment=True) raised {msg} in {site} at precision {d}", case)
+        else:
+            ctx.fail(f"C01/write-read/raises-{err_class(e)}", f"write->read raised {msg} at precision {d}", case)
         return None
     before, back, objs, info = r[1]
     for k, res in info["history"]:
